@@ -217,8 +217,15 @@ loop:
 			s = skipSpace(s)
 			if strings.HasPrefix(s, ";") {
 				s = skipSpace(s[1:])
+				// the weight is the parameter named q: skip the parameters before it one by one
+				// (looking for the bytes "q=" anywhere would take e.g. "freq=3" for a weight)
 				for !strings.HasPrefix(s, "q=") && s != "" && !strings.HasPrefix(s, ",") {
-					s = skipSpace(s[1:])
+					for s != "" && !strings.HasPrefix(s, ";") && !strings.HasPrefix(s, ",") {
+						s = s[1:]
+					}
+					if strings.HasPrefix(s, ";") {
+						s = skipSpace(s[1:])
+					}
 				}
 				if strings.HasPrefix(s, "q=") {
 					spec.Q, s = expectQuality(s[2:])
